@@ -100,6 +100,17 @@ func c10Scenarios(thorough bool) []*explore.Scenario {
 		sc.Worker, sc.TickBudget, sc.Unclean, sc.FSYield, sc.Bound = true, 2, true, true, 2
 		scs = append(scs, sc)
 	}
+	// SWM: sync-after-every-write mode (every Put/Delete ends with an fsync of the current segment) next to the tasks
+	// that swap, close or remove the current segment (S4: the current segment is the compaction candidate)
+	for i, th := range [][]explore.ThreadProg{
+		{{op(explore.Put, "a")}, {op(explore.Compact, "")}},
+		{{op(explore.Delete, "e")}, {op(explore.Compact, "")}},
+		{{op(explore.Put, "a"), op(explore.Put, "b")}, {op(explore.Put, "e"), op(explore.Put, "n")}},
+		{{op(explore.Put, "a")}, {op(explore.Sync, "")}, {op(explore.Compact, "")}},
+	} {
+		sc := mk(fmt.Sprintf("SWM-%d", i), "S4", "ROLL+SW", th...)
+		scs = append(scs, sc)
+	}
 	// RFS: readers (and one writer) on the repository's own file systems, every file-system call a scheduling point
 	// (before it, and after calls that hand bytes to the caller): what the FileSystem documents as safe for
 	// concurrent use - Slice/ReadAt under the shared lock - is exercised in every interleaving on the real thing
